@@ -6,6 +6,7 @@
 //     fails only on the copy, using the copy does not change the original);
 //   - TLC-generated schedules of goroutines, each on its own copy with shared keys and parameters, run in a
 //     binary built with the race detector; results are compared with the sequential run.
+//
 // Events are validated against spec/OwnershipTrace.tla.
 package c10
 
@@ -17,6 +18,7 @@ import (
 	"encoding/json"
 	"flag"
 	"fmt"
+	"github.com/tuneinsight/lattigo/v6/circuits/ckks/bootstrapping"
 	"os"
 	"reflect"
 	"sort"
@@ -224,6 +226,7 @@ type copyKind struct {
 type subject struct {
 	name   string
 	orig   interface{}
+	heavy  bool               // expensive operations: few, small schedules
 	mkOrig func() interface{} // when set, schedules run on freshly built originals (state filled on first use)
 	copies []copyKind
 	ops    []op
@@ -510,7 +513,9 @@ func subjects() []*subject {
 
 	// rlwe.Decryptor
 	out = append(out, &subject{name: "rlwe.Decryptor", orig: rlwe.NewDecryptor(p, f.sk), ops: []op{
-		{"DecryptNew", func(o interface{}) (string, error) { return dg(o.(*rlwe.Decryptor).DecryptNew(detCt(p, 1, p.MaxLevel(), 5))), nil }},
+		{"DecryptNew", func(o interface{}) (string, error) {
+			return dg(o.(*rlwe.Decryptor).DecryptNew(detCt(p, 1, p.MaxLevel(), 5))), nil
+		}},
 		{"DecryptNew degree 2 level 1", func(o interface{}) (string, error) { return dg(o.(*rlwe.Decryptor).DecryptNew(detCt(p, 2, 1, 6))), nil }},
 	}, copies: []copyKind{
 		{"ShallowCopy", true, false, func(o interface{}) interface{} { return o.(*rlwe.Decryptor).ShallowCopy() }},
@@ -563,7 +568,10 @@ func subjects() []*subject {
 	for _, si := range []bool{false, true} {
 		bops := []op{
 			{"AddNew", func(o interface{}) (string, error) { c, err := o.(*bgv.Evaluator).AddNew(b1, b2); return dg(c), err }},
-			{"MulRelinNew", func(o interface{}) (string, error) { c, err := o.(*bgv.Evaluator).MulRelinNew(b1, b2); return dg(c), err }},
+			{"MulRelinNew", func(o interface{}) (string, error) {
+				c, err := o.(*bgv.Evaluator).MulRelinNew(b1, b2)
+				return dg(c), err
+			}},
 			{"MulRelinNew+Rescale", func(o interface{}) (string, error) {
 				ev := o.(*bgv.Evaluator)
 				c, err := ev.MulRelinNew(b1, b2)
@@ -573,7 +581,10 @@ func subjects() []*subject {
 				err = ev.Rescale(c, c)
 				return dg(c), err
 			}},
-			{"RotateColumnsNew", func(o interface{}) (string, error) { c, err := o.(*bgv.Evaluator).RotateColumnsNew(b1, 3); return dg(c), err }},
+			{"RotateColumnsNew", func(o interface{}) (string, error) {
+				c, err := o.(*bgv.Evaluator).RotateColumnsNew(b1, 3)
+				return dg(c), err
+			}},
 			{"Mul by vector", func(o interface{}) (string, error) {
 				c, err := o.(*bgv.Evaluator).MulNew(b1, []uint64{1, 2, 3, 4})
 				return dg(c), err
@@ -636,7 +647,10 @@ func subjects() []*subject {
 		}},
 		{"RotateNew", func(o interface{}) (string, error) { c, err := o.(*ckks.Evaluator).RotateNew(c1, 3); return dg(c), err }},
 		{"ConjugateNew", func(o interface{}) (string, error) { c, err := o.(*ckks.Evaluator).ConjugateNew(c1); return dg(c), err }},
-		{"Mul by complex", func(o interface{}) (string, error) { c, err := o.(*ckks.Evaluator).MulNew(c1, complex(0.5, -1)); return dg(c), err }},
+		{"Mul by complex", func(o interface{}) (string, error) {
+			c, err := o.(*ckks.Evaluator).MulNew(c1, complex(0.5, -1))
+			return dg(c), err
+		}},
 	}, copies: []copyKind{
 		{"ShallowCopy", true, false, func(o interface{}) interface{} { return o.(*ckks.Evaluator).ShallowCopy() }},
 		{"WithKey", false, false, func(o interface{}) interface{} { return o.(*ckks.Evaluator).WithKey(f.evk) }},
@@ -694,6 +708,63 @@ func subjects() []*subject {
 		{"WithKey", false, false, func(o interface{}) interface{} { return o.(*rgsw.Evaluator).WithKey(f.evk) }},
 	}})
 
+	// bootstrapping.Evaluator: residual ring of half the degree (ring switching, packing of sparse ciphertexts)
+	{
+		res, err := ckks.NewParametersFromLiteral(ckks.ParametersLiteral{LogN: 9, LogNthRoot: 11, LogQ: []int{60, 40}, LogP: []int{61}, LogDefaultScale: 40})
+		tr.Must(err)
+		ln, mr := 10, bootstrapping.DefaultLogMessageRatio+16-9
+		bp, err := bootstrapping.NewParametersFromLiteral(res, bootstrapping.ParametersLiteral{LogN: &ln, LogMessageRatio: &mr})
+		tr.Must(err)
+		bsk := rlwe.NewKeyGenerator(res).GenSecretKeyNew()
+		keys, _, err := bp.GenEvaluationKeys(bsk)
+		tr.Must(err)
+		bev, err := bootstrapping.NewEvaluator(bp, keys)
+		tr.Must(err)
+		becd := ckks.NewEncoder(res)
+		mkct := func(logSlots, seed int) *rlwe.Ciphertext {
+			v := make([]complex128, 1<<logSlots)
+			for i := range v {
+				v[i] = complex(float64((i*seed)%9)/8-0.5, float64(i%5)/8)
+			}
+			pt := ckks.NewPlaintext(res, 0)
+			pt.LogDimensions = ring.Dimensions{Rows: 0, Cols: logSlots}
+			tr.Must(becd.Encode(v, pt))
+			ct, err := rlwe.NewEncryptor(res, bsk).WithPRNG(keyedPRNG()).EncryptNew(pt)
+			tr.Must(err)
+			return ct
+		}
+		full, s1, s2 := mkct(res.LogMaxSlots(), 3), mkct(res.LogMaxSlots()-2, 5), mkct(res.LogMaxSlots()-2, 7)
+		out = append(out, &subject{name: "bootstrapping.Evaluator/ring switching", orig: bev, heavy: true, ops: []op{
+			{"Bootstrap", func(o interface{}) (string, error) {
+				c, err := o.(*bootstrapping.Evaluator).Bootstrap(full.CopyNew())
+				return dg(c), err
+			}},
+			{"BootstrapMany 2 sparse", func(o interface{}) (string, error) {
+				cs, err := o.(*bootstrapping.Evaluator).BootstrapMany([]rlwe.Ciphertext{*s1.CopyNew(), *s2.CopyNew()})
+				if err != nil {
+					return "", err
+				}
+				return dg(&cs[0], &cs[1]), nil
+			}},
+		}, copies: []copyKind{{"ShallowCopy", true, false, func(o interface{}) interface{} { return o.(*bootstrapping.Evaluator).ShallowCopy() }}}})
+	}
+	// rlwe.MemEvaluationKeySet.ShallowCopy
+	out = append(out, &subject{name: "rlwe.MemEvaluationKeySet", orig: f.evk, ops: []op{
+		{"GetGaloisKey", func(o interface{}) (string, error) {
+			k, err := o.(rlwe.EvaluationKeySet).GetGaloisKey(f.galEls[1])
+			return dg(k), err
+		}},
+		{"GetRelinearizationKey", func(o interface{}) (string, error) {
+			k, err := o.(rlwe.EvaluationKeySet).GetRelinearizationKey()
+			return dg(k), err
+		}},
+		{"GetGaloisKeysList", func(o interface{}) (string, error) {
+			l := o.(rlwe.EvaluationKeySet).GetGaloisKeysList()
+			sortU(l)
+			return fmt.Sprint(l), nil
+		}},
+	}, copies: []copyKind{{"ShallowCopy", true, false, func(o interface{}) interface{} { return o.(*rlwe.MemEvaluationKeySet).ShallowCopy() }}}})
+
 	// deep copies
 	deepOps := func() []op {
 		return []op{{"bytes", func(o interface{}) (string, error) { return dg(o), nil }}}
@@ -717,6 +788,8 @@ func subjects() []*subject {
 	)
 	return out
 }
+
+func sortU(l []uint64) { sort.Slice(l, func(i, j int) bool { return l[i] < l[j] }) }
 
 func noiseClass(rq *ring.Ring, e ring.Poly) int {
 	m := 0
@@ -878,7 +951,12 @@ func Main(args []string) int {
 			if !conc {
 				continue
 			}
+			done := 0
 			for _, sch := range all {
+				if s.heavy && (len(sch) > 2 || done >= 2) {
+					continue
+				}
+				done++
 				prog++
 				k++
 				fmt.Fprintf(os.Stderr, "SCHED-BEGIN %d\n", prog)
